@@ -211,3 +211,10 @@ Definition check_diff (rt : Q) (r : nat) (corr raw : qvec) (impl_D : qmat) (impl
   let n := length raw in
   (cmpm rt impl_D (interdiff_from_diff Qops n r corr raw) (mabs (interdiff_from_diff Qops n r corr raw)),
    cmpl_rel rt impl_tr (tracer_from_diff Qops corr raw)).
+
+(* ---- array form of the getters: number of evaluated points (None = ValueError) ------------------------------ *)
+Definition array_shape (lx lT : nat) : option nat :=
+  option_map (@length unit) (array_query (fun _ _ => tt) (repeat tt lx) (repeat tt lT)).
+(* positions of the points each entry is computed from: (index into x, index into T) *)
+Definition array_points (lx lT : nat) : option (list (nat * nat)) :=
+  array_query (fun i j => (i, j)) (seq 0 lx) (seq 0 lT).
